@@ -222,7 +222,10 @@ func (p *PacketOut) Len() (n uint16) {
 	for _, a := range p.Actions {
 		n += a.Len()
 	}
-	n += p.Data.Len()
+	// Data is absent when the packet is referenced by BufferId.
+	if p.Data != nil {
+		n += p.Data.Len()
+	}
 	//if n < 72 { return 72 }
 	return
 }
@@ -251,9 +254,11 @@ func (p *PacketOut) MarshalBinary() (data []byte, err error) {
 		n += len(b)
 	}
 
-	b, err = p.Data.MarshalBinary()
-	copy(data[n:], b)
-	n += len(b)
+	if p.Data != nil {
+		b, err = p.Data.MarshalBinary()
+		copy(data[n:], b)
+		n += len(b)
+	}
 	return
 }
 
